@@ -821,6 +821,9 @@ func (a vc06Fail) less(b vc06Fail) bool {
 	if a.rnd != b.rnd {
 		return !a.rnd
 	}
+	if oa, ob := vc06Odd(a.input), vc06Odd(b.input); oa != ob {
+		return oa < ob
+	}
 	if len(a.input) != len(b.input) {
 		return len(a.input) < len(b.input)
 	}
@@ -828,6 +831,18 @@ func (a vc06Fail) less(b vc06Fail) bool {
 		return a.input < b.input
 	}
 	return a.msg < b.msg
+}
+
+// vc06Odd counts the characters that make a witness harder to read (anything but the
+// words a, b, the digit 7, keywords, blanks and operator characters).
+func vc06Odd(in string) int {
+	n := 0
+	for _, r := range in {
+		if !strings.ContainsRune("ab7 :()[]{}+-~^=<>", r) && !(r >= 'A' && r <= 'Z') {
+			n++
+		}
+	}
+	return n
 }
 
 type vc06Stats struct {
